@@ -203,6 +203,67 @@ def ob_histories(first):
     return merge([_history(q) for q in seqs])
 
 
+INIT_MODES = {"random": "_initialize_F_randomly_and_find_W", "alt_min": "_initialize_F_and_W_from_alt_min",
+              "closed_form": "_initialize_F_and_W_from_closed_form", "fix": "_dont_initialize_F_and_only_and_find_W",
+              "svd": "_initialize_F_with_svd_and_find_W"}
+
+
+@obligation("solve/requested_power_is_installed", params=[{"solver": sv, "mode": m, "power": pw} for sv in ("MaxSinrIASolver", "MMSEIASolver")
+                                                          for m in INIT_MODES for pw in ("scalar", "vector")], timeout=120,
+            desc="_solve_init(Ns, P) of the iterative solvers for EVERY initialisation mode (incl. 'fix' = continue from the current "
+                 "precoders) on a solver that holds an OLD power and cached power-scaled precoders: afterwards the solver's power is the "
+                 "requested one for every user and the cache built for the old power is gone; the initialiser of the selected mode - and "
+                 "only that one - is called with (Ns, P).  Initialisers are abstract callees here (their effect on F/W is covered by "
+                 "inv10/* and the bounded solver checks)")
+def ob_solve_power(solver, mode, power):
+    def body(c, it):
+        import pyphysim.ia.algorithms as alg
+        ch, _, draws = _new(c, it)
+        s = it.call(getattr(alg, solver), [ch])
+        called = []
+        for m, fn in INIT_MODES.items():
+            it.models["pyphysim.ia.algorithms:IterativeIASolverBaseClass.%s" % fn] = \
+                (lambda m: (lambda interp, self, *a, **k: called.append((m, a))))(m)
+        # old state: precoders with an old power and the derived full_F read once (cached)
+        F = np.empty(K, dtype=object)
+        for k in range(K):
+            F[k] = _cmat(c, "F%d" % k, N, NS)
+        old = [c.var("old%d" % k, "real") for k in range(K)]
+        for x in old:
+            c.assume(x > 0)
+        it.call(it.getattr(s, "set_precoders"), [F, None, np.array(old, dtype=object)])
+        it.getattr(s, "full_F")
+        it.setattr(s, "initialize_with", mode)
+        if power == "scalar":
+            p = c.var("p", "real")
+            c.assume(p > 0)
+            want = [p] * K
+            arg = p
+        else:
+            want = [c.var("p%d" % k, "real") for k in range(K)]
+            for x in want:
+                c.assume(x > 0)
+            arg = np.array(want, dtype=object)
+        it.call(it.getattr(s, "_solve_init"), [NS, arg])
+        P = it.getattr(s, "P")
+        goals = [Goal("exactly the selected initialiser was called, with (Ns, P)", [m for m, _ in called] == [mode]
+                      and len(called[0][1]) == 2 and called[0][1][0] is NS or called[0][1][0] == NS)]
+        try:
+            Pl = list(P)
+        except TypeError:
+            Pl = None
+        goals.append(Goal("P has one entry per user", Pl is not None and len(Pl) == K))
+        if Pl is not None and len(Pl) == K:
+            for k in range(K):
+                goals.append(Goal("user %d: power == requested power" % k, lift(Pl[k]) == want[k]))
+        if mode == "fix":
+            fF = it.getattr(s, "full_F")
+            for k in range(K):
+                goals.append(Goal("user %d: full_F == F * sqrt(requested power)" % k, sym.SBool(_meq(fF[k], F[k] * lift(want[k]).sqrt()))))
+        return goals
+    return verify(body, check_side=False)
+
+
 @obligation("inv10/unit_norm_precoders", timeout=120,
             desc="randomizeF and set_precoders(full_F=X): every entry of F_k is (entry of A)/n with the SAME n and n*n == ||A||_F^2 "
                  "(so ||F_k||_F == 1); numerators/denominators compared as exact polynomial identities")
@@ -421,6 +482,18 @@ def _iterative(name, exact_power, monotone):
         if bad:
             bad["after"] = "P setter"
             return bad
+        # continue from the solution found ('fix' initialisation) with another requested power
+        if hasattr(s, "initialize_with") and name != "AlternatingMinIASolver" and np.isscalar(case["P"]):
+            s.initialize_with = "fix"
+            P3 = float(P2 * (4.0 if case["seed"] % 2 else 0.25))
+            try:
+                s.solve(ns, P3)
+            except Exception as e:
+                return {"solve with 'fix' initialisation did not complete": repr(e)[:200], "Ns": ns}
+            bad = _solver_checks(s, ch, 3, ns, P3, exact_power=exact_power)
+            if bad:
+                bad["after"] = "solve(Ns, P=%g) continued with initialize_with='fix' from a solution at P=%g" % (P3, P2)
+                return bad
         return None
     return bounded(gen(), check)
 
